@@ -605,6 +605,35 @@ pub fn run(ctx: &Ctx) -> i32 {
     }
     // judge
     let mut by_sig: BTreeMap<String, usize> = BTreeMap::new();
+    // size sweep (hand-written trait in the runner's prelude): for every argument length the three
+    // forms must put the declared call on the wire - the chain extension serialises it at a
+    // non-zero buffer offset, so every alignment with the 256-byte steps is met
+    if records.keys().any(|k| k.starts_with("sweep.")) {
+        for len in 0..=600usize {
+            let names = ["put.plain", "put.chain", "put.ext", "watch.plain", "watch.chain"];
+            let expect: Vec<(&str, Vec<Value>)> = names.iter().map(|n| (*n, sweep_expect(len, n))).collect();
+            for (name, want) in expect {
+                stats.eval();
+                stats.class("size-sweep");
+                let k = format!("sweep.{name}.{len}");
+                let got = sweep_frames(records.get(&k));
+                let ok = got.as_ref() == Some(&want);
+                if !ok {
+                    let sig = format!("size-sweep:{name}");
+                    let c = by_sig.entry(sig.clone()).or_insert(0);
+                    *c += 1;
+                    if *c <= 2 {
+                        viol.push(Violation {
+                            sig,
+                            lane: "sweep".into(),
+                            case: json!({"kind": "sweep", "len": len, "form": name}),
+                            message: format!("SweepProxy, string argument of {len} bytes, form {name}: sent {}, declared {}", got.map(|g| truncate(&json!(g).to_string(), 300)).unwrap_or_else(|| "nothing (no record: the runner crashed before?)".into()), truncate(&json!(want).to_string(), 300)),
+                        });
+                    }
+                }
+            }
+        }
+    }
     for t in &traits {
         if skip.contains(&t.idx) {
             continue;
@@ -733,7 +762,44 @@ pub fn run(ctx: &Ctx) -> i32 {
         .finish(ctx, &stats, &viol, &[])
 }
 
+/// Frames the size sweep's form `name` must send for a string argument of `len` bytes.
+fn sweep_expect(len: usize, name: &str) -> Vec<Value> {
+    let key: String = "abcdefghijklmnopqrstuvwxyz".chars().cycle().take(len).collect();
+    let mut params = json!({"key": key});
+    if len % 3 != 0 {
+        params["theN"] = json!(len);
+    }
+    let put = json!({"method": "org.gen.sweep.Put", "parameters": params});
+    let watch = json!({"method": "org.gen.sweep.Watch", "parameters": {"key": key}, "more": true});
+    match name {
+        "put.plain" | "put.chain" => vec![put],
+        "put.ext" => vec![json!({"method": "org.varlink.service.GetInfo"}), put, json!({"method": "org.gen.sweep.Put", "parameters": {"key": "tail", "theN": 1}})],
+        _ => vec![watch],
+    }
+}
+
+fn sweep_frames(rec: Option<&Value>) -> Option<Vec<Value>> {
+    rec.and_then(|r| r["frames"].as_array().map(|a| a.iter().map(|f| f.as_str().and_then(|s| serde_json::from_str(s).ok()).unwrap_or(Value::Null)).collect()))
+}
+
 pub fn replay(_lane: &str, case: Value) -> Result<(), Fail> {
+    if case["kind"] == "sweep" {
+        let (len, name) = (case["len"].as_u64().unwrap_or(0) as usize, case["form"].as_str().unwrap_or("").to_string());
+        write_corpus("corp12", &BTreeMap::new(), &BTreeSet::new());
+        let b = build_corpus("corp12");
+        if !b.ok {
+            restore_stub("corp12");
+            return Err(Fail::new("infra", "the corpus runner does not build"));
+        }
+        let out = Command::new(target_dir().join("release").join("corp12")).output();
+        restore_stub("corp12");
+        let out = out.map_err(|e| Fail::new("infra", e.to_string()))?;
+        let key = format!("sweep.{name}.{len}");
+        let rec = String::from_utf8_lossy(&out.stdout).lines().filter_map(|l| serde_json::from_str::<Value>(l).ok()).find(|v| v["key"] == key.as_str());
+        let (got, want) = (sweep_frames(rec.as_ref()), sweep_expect(len, &name));
+        println!("record: {rec:?}");
+        return if got.as_ref() == Some(&want) { Ok(()) } else { Err(Fail::new(&format!("size-sweep:{name}"), format!("sent {got:?}, declared {want:?}"))) };
+    }
     // A replay case carries the complete generated module: it is rebuilt as a one-module corpus,
     // run, and the recorded record is judged again.
     let src = case["module"].as_str().ok_or_else(|| Fail::new("bad-replay", "no module source"))?;
